@@ -721,7 +721,7 @@ func C01(p *core.Program, r *core.Report) {
 					}
 					nT3++
 					xs := c.Of(xv)
-					key := fmt.Sprintf("%s: %s[%d]", unitName(fn), shortVal(xs), k)
+					key := fmt.Sprintf("%s: %s[%d]", unitName(fn), keyVal(xs), k)
 					ok, why := constIndexSafe(p, fn, in, xs, k)
 					r.Add("T3", key, p.Pos(in.Pos()), ok, why)
 				}
